@@ -639,6 +639,10 @@ func runC19(w *World, r *Report) {
 		r.Check(okLoop, "C19.surplus-closed", "updateValues visits every sender of every target", uv.Pos(), "the per-sender loop cannot be skipped for a target", "for some targets (e.g. nodes without data predecessors) the senders' values are never looked at: their stream copies stay unclosed")
 	}
 
+	// ---- a node that is sent a stream copy is never marked skipped (a skipped channel drops what it receives unread)
+	r.Rule("C19.selected-never-skipped", "targets selected by any branch are removed from the skipped set after all branches were evaluated", 1)
+	branchPruneCheck(w, r, "C19.selected-never-skipped")
+
 	// ---- drain-closes
 	r.Rule("C19.drain-closes", "concatStreamReader defers sr.Close() first", 1)
 	{
@@ -736,40 +740,40 @@ func mergeDispatchCheck(w *World, r *Report, rule string) {
 	mr := w.Fn("schema", "multiStreamReader.recv")
 	fChosen := w.Field("schema", "multiStreamReader", "chosenList")
 	// static select (receiveN, up to maxSelectNum sources) vs reflect.Select: the constructor builds the
-		// reflect cases under exactly the condition under which recv uses them
-		nmr := w.Fn("schema", "newMultiStreamReader")
-		cmpOf := func(fn *ssa.Function, isList func(ssa.Value) bool) (token.Token, int64, bool) {
-			var op token.Token
-			var c int64
-			found := false
-			instrs(fn, func(in ssa.Instruction) {
-				iff, ok := in.(*ssa.If)
-				if !ok {
-					return
-				}
-				o, x, y, ok := asCmp(iff.Cond)
-				if !ok || !isLenOf(x, isList) {
-					return
-				}
-				if v, ok := constInt(y); ok && v > 1 {
-					op, c, found = o, v, true
-				}
-			})
-			return op, c, found
-		}
-		op1, c1, ok1 := cmpOf(nmr, func(v ssa.Value) bool { _, isP := v.(*ssa.Parameter); return isP })
-		op2, c2, ok2 := cmpOf(mr, func(v ssa.Value) bool { return isLoadOfField(v, fChosen) })
-		// receiveN's dispatch table covers 0..c
-		tableLen := int64(-1)
-		instrs(w.Fn("schema", "receiveN"), func(in ssa.Instruction) {
-			if al, ok := in.(*ssa.Alloc); ok {
-				if arr, ok := deref(al.Type()).Underlying().(*types.Array); ok {
-					tableLen = arr.Len()
-				}
+	// reflect cases under exactly the condition under which recv uses them
+	nmr := w.Fn("schema", "newMultiStreamReader")
+	cmpOf := func(fn *ssa.Function, isList func(ssa.Value) bool) (token.Token, int64, bool) {
+		var op token.Token
+		var c int64
+		found := false
+		instrs(fn, func(in ssa.Instruction) {
+			iff, ok := in.(*ssa.If)
+			if !ok {
+				return
+			}
+			o, x, y, ok := asCmp(iff.Cond)
+			if !ok || !isLenOf(x, isList) {
+				return
+			}
+			if v, ok := constInt(y); ok && v > 1 {
+				op, c, found = o, v, true
 			}
 		})
-		r.Check(ok1 && ok2 && op1 == op2 && c1 == c2 && tableLen == c1+1, rule, "merged recv: static/reflect select boundary agrees with the constructor and the receiveN table", mr.Pos(),
-			fmt.Sprintf("both use len %s %d; receiveN has %d entries", op1, c1, tableLen), fmt.Sprintf("constructor builds reflect cases under len %s %d, recv uses them under len %s %d, receiveN table has %d entries: for a merge of exactly %d sources recv selects over cases that were never built (blocks forever) or indexes past the table", op1, c1, op2, c2, tableLen, c1))
+		return op, c, found
+	}
+	op1, c1, ok1 := cmpOf(nmr, func(v ssa.Value) bool { _, isP := v.(*ssa.Parameter); return isP })
+	op2, c2, ok2 := cmpOf(mr, func(v ssa.Value) bool { return isLoadOfField(v, fChosen) })
+	// receiveN's dispatch table covers 0..c
+	tableLen := int64(-1)
+	instrs(w.Fn("schema", "receiveN"), func(in ssa.Instruction) {
+		if al, ok := in.(*ssa.Alloc); ok {
+			if arr, ok := deref(al.Type()).Underlying().(*types.Array); ok {
+				tableLen = arr.Len()
+			}
+		}
+	})
+	r.Check(ok1 && ok2 && op1 == op2 && c1 == c2 && tableLen == c1+1, rule, "merged recv: static/reflect select boundary agrees with the constructor and the receiveN table", mr.Pos(),
+		fmt.Sprintf("both use len %s %d; receiveN has %d entries", op1, c1, tableLen), fmt.Sprintf("constructor builds reflect cases under len %s %d, recv uses them under len %s %d, receiveN table has %d entries: for a merge of exactly %d sources recv selects over cases that were never built (blocks forever) or indexes past the table", op1, c1, op2, c2, tableLen, c1))
 }
 
 // arrayCopyCheck: copies of an array-backed reader continue at the parent's position (every field copied).
